@@ -1444,7 +1444,15 @@ func (s *msim) rawCollect(B *mside, n int) {
 	for i := 0; i < pings; i++ {
 		s.r.Probe("pings_from_real_side")
 		s.obs("ping from B")
-		if !rp.withhold && !rp.truncated {
+		switch {
+		case rp.withhold:
+		case rp.truncated && rp.badStart >= 0:
+			// the cut-off item is already on the wire: nothing well-formed can
+			// follow it, so this ping stays unanswered and a pong timeout is fair
+			if B.allowErr == "" {
+				B.allowErr = "pong impossible after truncated item"
+			}
+		default:
 			rp.emit(rawItem{b: amino.MustMarshalAnySized(p2pconn.PacketPong{}), kind: "pong"}, -1)
 		}
 	}
